@@ -199,6 +199,20 @@ for values in ([1, 2, 3], [1, 3, 2], [2, 1]):          # the probe fails at leve
     except Exception as e:
         VIOLATED, DETAIL = True, f'sweep {values} ({values.index(2)} run(s) had written their files before the failure): the caller gets {type(e).__name__}: {e} instead of the model error'
     if VIOLATED: break
+# a failing run whose swept values include a SEQUENCE of numbers (product and sequential mode): type, message, notes still arrive
+for mode in ('product', 'sequential'):
+    if VIOLATED: break
+    pipe2 = DetectionPipeline(charge_generation=[ModelFunction(func='verif_probes.fail_if', name='bad', arguments={'level': 2, 'table': [0, 0]})])
+    obs2 = Observation(parameters=[ParameterValues(key='pipeline.charge_generation.bad.arguments.table', values=[[1, 2], [3, 4]])], mode=mode, readout=Readout(times=[1.0]))
+    try:
+        pyxel.run_mode(mode=obs2, detector=VP.detector(), pipeline=pipe2)
+        VIOLATED, DETAIL = True, f'{mode} sweep over a sequence-valued argument: run_mode returned normally'
+    except VP.ProbeError as e:
+        notes = ' '.join(getattr(e, '__notes__', []))
+        if 'charge_generation' not in notes or 'bad' not in notes:
+            VIOLATED, DETAIL = True, f'{mode} sweep over a sequence-valued argument: note lacks group / model: {notes!r}'
+    except Exception as e:
+        VIOLATED, DETAIL = True, f'{mode} sweep over a sequence-valued argument: the caller gets {type(e).__name__}: {e} instead of the model error'
 # a fault at a chosen readout step of an exposure (with progress bar: several readout times) and of a dask observation
 from pyxel.exposure import Exposure
 def check(label, call):
